@@ -39,6 +39,13 @@ def gen_case(rng, n_ops, faults=False, crashes=False):
             ("S5", "U2", "auth", "bg"), ("S6", "U4", "anon", ""), ("S7", "U3", "root", "")]
     for s, u, lvl, bg in sess:
         out.append(f"sess {s} {u} {lvl} {bg}".strip())
+    # the users' `me` topics: in two cases out of three some sessions attach to `me`, so that what the topics tell users who are
+    # not attached (and the online/offline exchange between users) is part of the history
+    me_on = rng.chance(2, 3)
+    if me_on:
+        for s, u, lvl, bg in sess:
+            if rng.chance(1, 2):
+                out.append(f"sub {s} me")
     ntop = 0
     contents = 0
     chans = set()       # channel-enabled group topics: U2 and U3 come to them as channel readers (`chn:` spelling), U1 and U4 as subscribers
@@ -46,6 +53,12 @@ def gen_case(rng, n_ops, faults=False, crashes=False):
     att = {}            # topic -> sessions that probably are attached (a guess: used only to bias the choice of actors)
     for _ in range(n_ops):
         s, su, lvl, _ = rng.choice(sess)
+        if me_on and rng.chance(1, 9):
+            if faults and rng.chance(1, 8):
+                out.append(f"fail {1 + rng.below(3)}")
+            out.append(rng.choice([f"sub {s} me", f"sub {s} me", f"sub {s} me", f"leave {s} me", f"leave {s} me", f"unload {su}", f"unload {su}",
+                                   f"pub {s} me CM", f"get {s} me desc", f"leave {s} me unsub=1", f"drop {s}", "fg S5"]))
+            continue
         k = rng.below(100)
         t = f"T{1 + rng.below(ntop)}" if ntop else None
         if t and k >= 22 and att.get(t) and rng.chance(3, 4):
@@ -176,6 +189,22 @@ def gen_case(rng, n_ops, faults=False, crashes=False):
         elif rng.chance(1, 40):
             out.append("restart")          # a clean stop and start: every topic is loaded again from the store
             att = {}
+    if me_on and rng.chance(1, 2):
+        out.extend(settle(users, ntop))
+    return out
+
+
+def settle(users, ntop):
+    """activity settles: the deferred (background) session comes to the foreground and every idle topic is unloaded - the p2p and
+    group topics first, the users' `me` topics last (a topic which still has a session answers `busy`)"""
+    out = ["fg S5"]
+    for i, a in enumerate(users):
+        for b in users[i + 1:]:
+            out.append(f"unload P:{a}:{b}")
+    for n in range(1, ntop + 1):
+        out.append(f"unload T{n}")
+    for u in users:
+        out.append(f"unload {u}")
     return out
 
 
@@ -202,7 +231,9 @@ def _maybe_restart(rng, out, p=6):
 def scenario(rng, idx=None):
     """one short history aimed at a clause of the properties, with its parameters drawn at random; restarts are sprinkled in so
     that the same clause is also exercised on a reloaded topic"""
-    k = rng.below(17) if idx is None else idx % 17          # the stream goes through the kinds in turn
+    k = rng.below(21) if idx is None else idx % 21          # the stream goes through the kinds in turn
+    if k >= 17:
+        return scenario_me(rng, k - 17)
     if k == 16:
         return scenario_suspended(rng)
     if k >= 14:
@@ -595,3 +626,63 @@ WORLD_ASSUMPTIONS = [
     "accounts carry the default access the server stores for an account (within JRWPAS / JRWPA, with A unless N: user.go:97-117)",
     "at most one injected store failure or crash point per request",
 ]
+
+
+def scenario_me(rng, k):
+    """presence between users and from topics to users who are not attached (C10): sessions come and go on `me`, on a p2p topic
+    and on a group; subscriptions are muted, un-muted, removed; idle topics unload; then everything settles"""
+    out = _preamble(rng)
+    users = ["U1", "U2", "U3", "U4"]
+    ses = {"S1": "U1", "S2": "U2", "S3": "U3", "S4": "U1", "S5": "U2"}
+    first = list(ses)
+    rng_order = sorted(first, key=lambda _: rng.below(1000))
+    for s in rng_order[:2 + rng.below(4)]:
+        out.append(f"sub {s} me")
+    ntop = 0
+    if k in (0, 3):          # two users, a p2p topic: who is told online / offline and when
+        a, b = rng.choice([("S1", "S2"), ("S2", "S1"), ("S3", "S1"), ("S2", "S3")])
+        ua, ub = ses[a], ses[b]
+        steps = [f"sub {a} {ub}", f"sub {b} {ua}", f"leave {a} {ub}", f"leave {b} {ua}", f"sub {a} me", f"sub {b} me", f"leave {a} me", f"leave {b} me",
+                 f"unload {ua}", f"unload {ub}", f"unload P:{':'.join(sorted([ua, ub]))}", f"pub {a} {ub} CP", f"note {b} {ua} read 1",
+                 f"setsub {a} {ub} mode=JRW", f"setsub {a} {ub} mode=JRWPA", f"setsub {b} {ua} user={ua} mode=JRW", f"setsub {b} {ua} user={ua} mode=JRWPA",
+                 f"leave {a} {ub} unsub=1", f"deltopic {b} {ua}", f"drop {a}", f"drop {b}", "fg S5", "sub S5 me", "sub S4 me", f"setdesc {a} {ub} priv=pvM",
+                 f"delmsg {a} {ub} 1:2", f"delmsg {b} {ua} 1:2 hard=1"]
+        out.append(f"sub {a} {ub}")
+        for _ in range(5 + rng.below(10)):
+            out.append(rng.choice(steps))
+            _maybe_restart(rng, out, 25)
+    elif k in (1, 4):        # a group: members on `me` learn that it is online, of messages, changes and removals
+        owner = rng.choice(["S1", "S2", "S3"])
+        ou = ses[owner]
+        out.append(f"newgrp {owner}" + rng.choice(["", " pub=pbG", " auth=JRWPS anon=N", " auth=JRW anon=N"]))
+        ntop = 1
+        T = "T1"
+        mem = [s for s in ("S1", "S2", "S3") if s != owner]
+        steps = []
+        for m in mem:
+            mu = ses[m]
+            steps += [f"sub {m} {T}", f"leave {m} {T}", f"setsub {owner} {T} user={mu} mode={rng.choice(['JRWPS', 'JRWP', 'JRW', 'JR', 'N', 'RWP'])}",
+                      f"setsub {m} {T} mode={rng.choice(['JRW', 'JRWP', 'JRWPS', 'N'])}", f"leave {m} {T} unsub=1", f"delsub {owner} {T} {mu}",
+                      f"pub {m} {T} CG", f"note {m} {T} {rng.choice(['read', 'recv'])} {1 + rng.below(3)}", f"sub {m} me", f"leave {m} me", f"unload {mu}", f"drop {m}",
+                      f"delmsg {m} {T} 1:{2 + rng.below(3)}", f"setdesc {m} {T} priv=pvG"]
+        steps += [f"pub {owner} {T} CG", f"leave {owner} {T}", f"sub {owner} {T}", f"unload {T}", f"unload {T}", f"setdesc {owner} {T} pub=pbH",
+                  f"delmsg {owner} {T} 1:2 hard=1", f"sub S4 {T}", "sub S5 me", f"sub S5 {T}", "fg S5", f"deltopic {owner} {T}", f"sub {owner} me", f"unload {ou}",
+                  f"note {owner} {T} read 1"]
+        for _ in range(6 + rng.below(12)):
+            out.append(rng.choice(steps))
+            _maybe_restart(rng, out, 30)
+    else:                    # everything at once: `me`, a p2p topic, a group and a channel
+        out.append("newgrp S1" + rng.choice(["", " chan=1"]))
+        ntop = 1
+        chan = out[-1].endswith("chan=1")
+        rd = "chn:T1" if chan else "T1"
+        steps = ["sub S2 " + rd, "leave S2 " + rd, "sub S3 " + rd, "leave S3 " + rd + " unsub=1", "pub S1 T1 CX", "sub S1 U2", "sub S2 U1", "leave S1 U2", "leave S2 U1",
+                 "pub S1 U2 CY", "sub S4 me", "leave S4 me", "leave S1 me", "sub S1 me", "sub S2 me", "leave S2 me", "unload U1", "unload U2", "unload T1",
+                 "unload P:U1:U2", "drop S1", "drop S2", "fg S5", "sub S5 me", "sub S5 " + rd, "note S2 " + rd + " read 1", "setsub S2 " + rd + " mode=JR",
+                 "setsub S2 " + rd + " mode=JRP", "setsub S1 T1 user=U3 mode=JRWP", "setdesc S1 T1 pub=pbZ", "deltopic S2 " + rd, "deltopic S1 T1", "pub S3 me CM",
+                 "get S1 me desc", "leave S3 me unsub=1", "setsub S2 U1 mode=JRW", "setsub S2 U1 mode=JRWPA"]
+        for _ in range(6 + rng.below(14)):
+            out.append(rng.choice(steps))
+            _maybe_restart(rng, out, 30)
+    out.extend(settle(users, ntop))
+    return out
